@@ -146,7 +146,7 @@ def _worker(item):
         F, meta, H = c03.parse(out_p)
         res['H'] = H
         nblocks = H['data_blocks']
-        res['data'] = raw[8192:8192 + nblocks * 4096]
+        res['data'] = raw[H['n_header_blocks'] * 4096:H['n_header_blocks'] * 4096 + nblocks * 4096]
         res['W'] = {k: W[k] for k in ('ntr', 'structured', 'stored', 'hash')}
         res['W'].update({'il': W['il'].tolist(), 'xl': W['xl'].tolist(), 'z': W['z'].tolist()})
         res['_W'] = W
@@ -249,7 +249,7 @@ def prepare(run):
         F, meta, H = c03.parse(p)
         shape, rate, bs, extra = spec[:4]
         dz_us = int(round(1000 * (spec[4] if len(spec) > 4 else 4.0)))
-        S.append({'path': p, 'label': f'numpy{shape}r{rate}b{bs}h{extra}', 'F': fc.F, 'snap': _snapshot(p), 'data': raw[8192:8192 + H['data_blocks'] * 4096],
+        S.append({'path': p, 'label': f'numpy{shape}r{rate}b{bs}h{extra}', 'F': fc.F, 'snap': _snapshot(p), 'data': raw[H['n_header_blocks'] * 4096:H['n_header_blocks'] * 4096 + H['data_blocks'] * 4096],
                   'T': c03.truth(3, shape, fc.F['b'], rate, shape[0] * shape[1], (100, 2), (-7, 3), 8, dz_us, source_format=20 if extra not in ('dup', 'irr') else 0), 'mask': mask})
     # a source that already uses the float64 sample-axis fields: a crop of the 1001 us source starting between whole milliseconds
     from seismic_zfp.cropping import SgzCropper
@@ -263,9 +263,22 @@ def prepare(run):
         with open(p2, 'rb') as f:
             raw = f.read()
         F, meta, H = c03.parse(p2)
-        S.append({'path': p2, 'label': 'crop-of-125us(17, 18, 36)', 'F': fc.F, 'snap': _snapshot(p2), 'data': raw[8192:8192 + H['data_blocks'] * 4096],
+        S.append({'path': p2, 'label': 'crop-of-125us(17, 18, 36)', 'F': fc.F, 'snap': _snapshot(p2), 'data': raw[H['n_header_blocks'] * 4096:H['n_header_blocks'] * 4096 + H['data_blocks'] * 4096],
                   'T': c03.truth(3, (17, 18, 36), fc.F['b'], 32, 17 * 18, (100, 2), (-7, 3), 8, 125, source_format=20), 'z0_us': 8500})
+    # archived files of older releases (single header block / unpadded footer / interval in ms / no trace-count field)
+    for k, name in enumerate(FIXTURE_SOURCES):
+        p3, T = c03.stage_fixture(d, 900 + k, name)
+        T.pop('nojudge', None)
+        fc = session.FileCase(p3)
+        with open(p3, 'rb') as f:
+            raw = f.read()
+        F, meta, H = c03.parse(p3)
+        S.append({'path': p3, 'label': f'fixture {name}', 'F': fc.F, 'snap': _snapshot(p3),
+                  'data': raw[H['n_header_blocks'] * 4096:H['n_header_blocks'] * 4096 + H['data_blocks'] * 4096], 'T': T, 'z0_us': T['z0'] * 1000})
     return S
+
+
+FIXTURE_SOURCES = ['small_v0.0.1.sgz', 'small_8bit-8x8.sgz', 'small-dec_8bit.sgz', 'padding/padding_6x7.sgz']
 
 
 def run(run):
